@@ -6,13 +6,19 @@ CONFIG = {
                   "(regenerated facts: `go` around AcceptConnection in SocketServer/PacketServer; net/http's goroutine per request for "
                   "HTTP endpoints) a well-behaved peer is accepted and completes using only its own steps, for every set of stalled "
                   "peers and every arrival order; with the handshake on the loop one silent peer blocks all later peers (witness). "
-                  "Partial: real time enters only as a deadline in the correspondence.",
+                  "Timed extension (SA.Model.AcceptTimed): with no handshake watchdog, or one aimed at its own connection, an "
+                  "established session survives every further history including watchdog expiries of stalled peers "
+                  "(C15_established_stays); the code arms no timer/deadline on the accept path (regenerated fact), for which the "
+                  "timed model is the untimed one; witness for a watchdog aimed at the connection accepted last. "
+                  "Partial: real time enters only as deadlines and hold times in the correspondence.",
     "level_note": "Trusted: Lean kernel; SA.Model.Accept tied by the regenerated facts and by e2e `stall` runs: m raw peers stalled after "
                   "connect / inside the first request line / between the two requests / inside a TLS hello / after the upgrade on tcp, "
-                  "tcp+tls, ws, udp/kcp endpoints, then a real client must echo within 3 s (retry 10 s).",
+                  "tcp+tls, ws, udp/kcp endpoints, then a real client must echo within 3 s (retry 10 s); hold scenarios: the served client's session is "
+                  "kept 12 s (thorough 25-65 s) next to the stalled peers, then its open and a new logical connection must echo "
+                  "(control run without stalled peers on failure).",
     "technique": "Lean 4 proof (scheduler model, all schedules) + regenerated facts + e2e correspondence with stalled raw peers",
     "components": [{"name": "stall", "timeout": {"quick": 300, "thorough": 1200}}],
-    "rule": "stall: endpoint kinds tcp, tcp+tls, ws, udp (thorough: + StartTLS, wss) x stall points x m in {1,2} (thorough: 5); "
+    "rule": "stall: hold scenarios (stalled first / well-behaved first); endpoint kinds tcp, tcp+tls, ws, udp (thorough: + StartTLS, wss) x stall points x m in {1,2} (thorough: 5); "
             "non-trivial = well-behaved client served; distinct = distinct op line",
     "trusted_base": COMMON_TB + ["net/http per-request goroutines, kcp-go listener, Go scheduler"],
     "assumptions": ["served = first echo within the deadline"],
